@@ -194,7 +194,14 @@ def run_property(pid, tier, seed, jobs=None, write_baseline=False, only_units=No
         key = (o["unit"], fn)
         if key not in seen_fn:
             seen_fn[key] = _concretise(pid, o, results, seed)
-        rp, has_input = _write_replay(pid, o, seen_fn[key])
+        conc_ = seen_fn[key]
+        if o["status"] == "unknown" and not (conc_ and conc_.get("found")) and o.get("backend") != "frame":
+            # the solvers gave up (time-out, resource limit, no Schwartz-Zippel witness) on an obligation that is discharged on the
+            # unchanged tree, and no failing input was found on the real code: a failed proof is *undecided*, not a violation
+            o = dict(o, detail=(o.get("detail") or "") + " [discharged on the unchanged tree; solver gave up now; no failing input found]")
+            undecided.append(o)
+            continue
+        rp, has_input = _write_replay(pid, o, conc_)
         violations.append((o, rp, has_input))
     missing = sorted(n for n in base if n not in verdict) if not only_units else []
     # functions the symbolic executor could not follow (outside the supported subset): the deductive
